@@ -167,7 +167,7 @@ def history_events(chk, cx, fsx, reqs, eid0, dask_every=4):
     return evs
 
 
-def offset_events(chk, cx, fsx, ks, eid0):
+def offset_events(chk, cx, fsx, ks, eid0, pert_every=3):
     """offset_at(time_at(k)) through absolute and relative times, perturbed times, out of range."""
     import astropy.units as u
     rl = cx.rl
@@ -191,7 +191,7 @@ def offset_events(chk, cx, fsx, ks, eid0):
         un = units[j % len(units)]
         q = r.time_at(k, unit=un)
         one(k, "rel:" + un.to_string(), 0, q, Fraction(float(q.value)) * Fraction(un.to(u.ns)) / 10 ** 9)
-        if j % 3 == 0:
+        if j % pert_every == 0:
             for pert in (-7, -3, 3, 7):          # tenths of a sample: nearest sample, never a tie
                 t2 = t + (pert / 10) / r.sample_rate
                 one(k, "abs", pert, t2, rl.seconds_between(t2, r.start_time))
@@ -228,6 +228,7 @@ def meta_event(cx, fsx, eid):
 
 def free_running(chk, cx, sets, nthreads, nreads, eid0):
     """Thread pool on shared reader objects; every completed read becomes an event."""
+    import warnings
     rl = cx.rl
     out = [[] for _ in range(nthreads)]
     races = [0] * nthreads
@@ -246,7 +247,11 @@ def free_running(chk, cx, sets, nthreads, nreads, eid0):
             if rnd.random() < 0.03:
                 o, n = rnd.choice([(-1, 1), (fsx.outlen, 1), (0, -1)])
             res = rl.do_read(fsx.reader, o, n)
-            while res[0] == "exc" and res[1].startswith("Warning!"):
+            tries = 0
+            while res[0] == "exc" and res[1].startswith("Warning!") and tries < 3:
+                tries += 1
+                warnings.resetwarnings()
+                warnings.simplefilter("ignore")
                 # Not the reader: baseband's format detection switches the process-wide warnings filter to
                 # 'error' for a moment (warnings.catch_warnings is not thread-safe) and a deprecation warning
                 # of the installed astropy/baseband pair, issued in another thread, is raised.  Counted, retried.
@@ -259,7 +264,6 @@ def free_running(chk, cx, sets, nthreads, nreads, eid0):
         t.start()
     for t in th:
         t.join(600)
-    import warnings
     warnings.resetwarnings()
     warnings.simplefilter("ignore")
     cx.counts["dependency_warning_races"] = sum(races)
@@ -371,7 +375,8 @@ def forced_on_samples(chk, cx, scheds, sets, rnd):
         mx = cx.maxn.get(fsx.key, 16)
         b = fb * fsx.fpf if fsx.nfiles > 1 else (fb if fb < L else L // 2)
         pairs = [[(b - mx // 2, mx), (b, mx)], [(b - 1, mx), (b - 1, mx)], [(0, mx), (L - mx, mx)]]
-        for i, procs in enumerate(scheds):
+        for i, procs in enumerate(scheds if (chk.tier == "thorough" or fsx.key == "s_dada") else
+                                  rnd.sample(scheds, min(len(scheds), 24))):
             nread = max(procs)
             args = pairs[i % len(pairs)][:nread] if nread <= 2 else [(b - 2, min(mx, 3)), (b - 1, min(mx, 3)), (b, min(mx, 3))]
             seq = [rl.do_read(r, o, n) for o, n in args]
@@ -397,7 +402,7 @@ def run(chk):
     tmp = tempfile.mkdtemp(prefix="c11-", dir=SCR)
     import reader_lib as rl
     try:
-        with cf.ThreadPoolExecutor(max_workers=8) as pool:
+        with cf.ThreadPoolExecutor(max_workers=12) as pool:
             _run(chk, rl, tmp, pool)
     finally:
         rl.uninstall()
@@ -436,7 +441,7 @@ def _run(chk, rl, tmp, pool):
     # (2) sequential histories (+ Dask reads, adjacency, repeats)
     for fsx in allsets:
         small = fsx.key in cx.samples
-        lim = (400 if th else 110) if not small else (150 if th else 36)
+        lim = (400 if th else 70) if not small else (150 if th else 24)
         if fsx.key == "s_stokes":
             lim = 30 if th else 8
         reqs = requests(fsx, rnd, nrand=(60 if th else 12) if fsx.key != "s_stokes" else 4, limit=lim,
@@ -455,16 +460,29 @@ def _run(chk, rl, tmp, pool):
             fb = fsx.spf // (2 if fsx.real else 1)
             ks = sorted(set([-1, 0, 1, 2, fb - 1, fb, fb + 1, fb * fsx.fpf, L // 2, L - 2, L - 1, L, L + 1]
                             + [rnd.randrange(0, L + 1) for _ in range(2500 if th else 40)]))
-        ev = offset_events(chk, cx, fsx, ks, len(events))
+        ev = offset_events(chk, cx, fsx, ks, len(events), pert_every=3 if th else 9)
         cx.counts["offset"] += len(ev)
         events += ev
     lap("offsets")
+    vjobs = []
+
+    def submit(evs, name):
+        big = [e for e in evs if e["ev"] == "read" and len(e["codes"]) + len(e["raw"]) > 6000]
+        small = [e for e in evs if not (e["ev"] == "read" and len(e["codes"]) + len(e["raw"]) > 6000)]
+        random.Random(chk.seed).shuffle(small)          # spread the costly events over the batches
+        if small:
+            vjobs.append(pool.submit(rl.validate, "Trace_Reader", small, chk, batch=max(150, len(small) // 8 + 1), jobs=8,
+                                     name=name))
+        if big:
+            vjobs.append(pool.submit(rl.validate, "Trace_Reader", big, chk, batch=12, jobs=2, name=name + "-big"))
+    submit(events, "seq")
     # (5) free-running concurrency on shared reader objects
     pool_sets = [cx.written[k] for k in ("vdifc", "vdifc_lsb", "vdifr", "vdifr_lsb", "dada", "guppi", "guppil", "stokesl",
                                          "stokeslong", "vdift")] + [cx.samples["s_dada"], cx.samples["s_guppi"]]
     ev = free_running(chk, cx, pool_sets, 32, 200 if th else 45, len(events))
     cx.counts["pool"] = len(ev)
     events += ev
+    submit(ev, "pool")
 
     lap("pool")
     # (6) TLC: model checking results, generated schedules
@@ -497,8 +515,8 @@ def _run(chk, rl, tmp, pool):
         for (fk, ak), v in sorted(by.items()):
             byF.setdefault(fk, []).append(v)
         for fk, groups in sorted(byF.items()):
-            for g in rnd.sample(groups, 2):
-                sel += g
+            g1, g2 = rnd.sample(groups, 2)       # all interleavings of one argument pair, 16 of another
+            sel += g1 + rnd.sample(g2, 16)
         recs2 = sel
         recs3 = rnd.sample(recs3, min(len(recs3), 120))
     else:
@@ -513,16 +531,12 @@ def _run(chk, rl, tmp, pool):
 
     lap("forced")
     # (7) trace validation by TLC
-    big = [e for e in events if e["ev"] == "read" and len(e["codes"]) + len(e["raw"]) > 6000]
-    small = [e for e in events if not (e["ev"] == "read" and len(e["codes"]) + len(e["raw"]) > 6000)]
-    rnd.shuffle(small)          # spread the costly events over the batches
     rejected = []
     nval = 0
-    for part, batch in ((small, max(200, len(small) // 14 + 1)), (big, 12)):
-        if part:
-            rej, n = rl.validate("Trace_Reader", part, chk, batch=batch, jobs=14, name="C11")
-            rejected += rej
-            nval += n
+    for j in vjobs:
+        rej, n = j.result()
+        rejected += rej
+        nval += n
     chk.validated += nval
     lap("trace_validation")
     amb = 0
